@@ -103,6 +103,13 @@ def decompose(cond, pol, out):
             for x in cond.a[1:]:
                 decompose(x, True, out)
             return
+    # a * b == 0 is false  <=>  a != 0 and b != 0 ;  a * b != 0 is true likewise
+    if cond.op == "cmp" and cond.a[0] in ("==", "!=") and (pol is (cond.a[0] == "!=")):
+        for prod, z in ((cond.a[1], cond.a[2]), (cond.a[2], cond.a[1])):
+            if tm.is_const(z, 0) and prod.op == "bin" and prod.a[0] == "*":
+                for fac in (prod.a[1], prod.a[2]):
+                    decompose(tm.cmp("==", fac, tm.const(0)), False, out)
+                return
     out.append((cond, pol))
 
 
